@@ -297,7 +297,7 @@ def _build(out, case, d, sched, jitter, endless):
         out.saver_arg = (stem + ext) if case.get("relative") else out.saver_path
         out.saver_ext = ext
         out.ignore_files |= {out.saver_path, out.saver_path + ".wav", out.saver_path + "(1).wav"}
-        if case.get("stale_tmp") and ext != ".wav":
+        if case.get("stale_tmp") and ext.lower() != ".wav":
             _stale_wav(out.saver_path + ".wav", sr, sw, ch)
         skw = {} if case["saver"]["cache"] is None else {"cache_size_sec": case["saver"]["cache"]}  # None: the default
         saver = W.StreamSaverWorker(reader, out.saver_arg, **skw)
@@ -348,7 +348,7 @@ def _build(out, case, d, sched, jitter, endless):
             out.joiner_path = os.path.join(d, jstem + jext)
             out.joiner_ext = jext
             out.ignore_files |= {out.joiner_path, out.joiner_path + ".wav", out.joiner_path + "(1).wav"}
-            if case.get("stale_tmp") and jext != ".wav":
+            if case.get("stale_tmp") and jext.lower() != ".wav":
                 _stale_wav(out.joiner_path + ".wav", sr, sw, ch)
             o = W.AudioEventsJoinerWorker(out.join_sil, (jstem + jext) if case.get("relative") else out.joiner_path,
                                           None, sr, sw, ch)
@@ -533,6 +533,18 @@ def run_pipeline(case, scheduled=True, stop_step=None, jitter=None, endless=Fals
         out.twin.stdout = ""
         out.twin.alive, out.twin.thread_errors, out.twin.failure = [], [], None
     return out
+
+
+def release(run):
+    """Drop every reference the harness holds to the workers of a finished run and collect them, as
+    happens when a program is done with them (the savers have a __del__): the files they produced stay."""
+    import gc
+
+    for r in [run] + ([run.twin] if getattr(run, "twin", None) is not None else []):
+        for name in ("saver", "joiner", "regsave", "printer", "command", "tokenizer", "observers", "workers", "proxy", "recs", "src"):
+            if hasattr(r, name):
+                setattr(r, name, None)
+    gc.collect()
 
 
 def cleanup(run):
